@@ -1683,3 +1683,93 @@ def check_C09(ctx):
     ctx.coverage["samples"] = [" ".join(o + [x for l, p in pr for x in ([l] + ([p] if p else []))]) for pr, o in runs[:3]]
     ctx.coverage["evaluations"] = len(runs)
     ctx.coverage["distinct_nontrivial"] = len({str(r) for r in runs})
+
+
+# ---- C14: per-test time limit ---------------------------------------------------------------------
+def check_C14(ctx):
+    lean_check(ctx)
+    rng = random.Random(ctx.seed * 1000 + 14)
+    bench = Bench(ctx)
+    scens, envs, labels = [], [], []
+    for mode in ("fork", "inproc", "single:slow"):
+        for pos in (0, 1, 2):
+            for pre in ([], ["P"], ["F"], ["P", "F", "P"]):
+                for how in ("env", "die_in"):
+                    if ctx.tier == "quick" and (pos + len(pre) + (how == "env")) % 2 and mode != "fork":
+                        continue
+                    others = [T("a", body=["P", "F"]), T("b", body=["P"])]
+                    slow = T("slow", body=pre + (["Z"] if how == "env" else ["ZD"]))
+                    tests = others[:pos] + [slow] + others[pos:]
+                    root = S("top", items=[S("inner", items=tests[:2]), tests[2]]) if pos == 1 else S("top", items=tests)
+                    scens.append(Scen(root, mode=mode)); envs.append({"CGREEN_PER_TEST_TIMEOUT": "1"} if how == "env" else {}); labels.append(f"{mode}, position {pos}, {len(pre)} results delivered, limit by {how}")
+                    if (pos + len(pre)) % 2 == 0:
+                        scens.append(Scen(root, mode=mode)); envs.append(dict(envs[-1], CGREEN_CHILD_EXIT_WITH__EXIT="1")); labels.append(labels[-1] + ", CGREEN_CHILD_EXIT_WITH__EXIT set")
+    # slow context setup (the limit covers the fixtures too)
+    for mode in ("fork", "single:slow"):
+        scens.append(Scen(S("top", items=[T("slow", ctx=1, setup=["Z"], body=["P"]), T("b", body=["P"])]), mode=mode)); envs.append({"CGREEN_PER_TEST_TIMEOUT": "1"}); labels.append(f"{mode}, overrun in the context's setup")
+    models = run_model_scenarios([s.text() for s in scens])
+
+    def one(i):
+        wd = os.path.join(ctx.work, f"c14-{i}")
+        try:
+            return run_impl(bench.exe, scens[i].text(), "text", wd, env=envs[i], timeout=20)
+        finally:
+            shutil.rmtree(wd, ignore_errors=True)
+    with ThreadPoolExecutor(max_workers=64) as pool:
+        obs = list(pool.map(one, range(len(scens))))
+    ndis = shown = 0
+    for s, m, o, lab, en in zip(scens, models, obs, labels, envs):
+        ds = compare(m, o, "text", check_events=False)
+        if ds:
+            ndis += 1
+            if ndis <= 3: ctx.oblige("correspondence C14", False, f"{lab}: {ds[0]}")
+        st = status_of(o)
+        errs = []
+        if st == "timeout": errs.append("the test was not stopped (the run was still going after 20 s)")
+        elif st in ("0", "exit0"): errs.append(f"the run's verdict is success (status {st}) although a test overran its limit")
+        if s.mode == "fork" and st in ("0", "1"):
+            e = oracle_C03(s, m, o, "text")
+            if e: errs.append(e)
+        if errs and shown < 6:
+            shown += 1
+            ctx.violation(f"[C14] {lab}: " + "; ".join(errs), f"# env {en}  reporter: text\n" + s.text(),
+                          found_input=True, facts={"mode": s.mode.split(":")[0]})
+    # ---- the value of the variable ----
+    vals = {"positive": ["1", "5", "60", "2147483647"], "zero": ["0", "00"], "negative": ["-1", "-5", "-2147483648"], "non-numeric": ["abc", "x5", "five"], "empty": [""],
+            "trailing garbage": ["5abc", "5 ", "1.5", "7seconds"], "leading blank": [" 7"], "overflowing": ["2147483648", "4294967297", "99999999999999999999"], "signed": ["+5"]}
+    quick = Scen(S("top", items=[T("t", body=["P"])]))
+    jobs, meta = [], []
+    for cls, vs in vals.items():
+        for v in vs:
+            for mode in ("fork", "inproc", "single:t"):
+                sc = quick.copy(); sc.mode = mode
+                jobs.append((sc, v)); meta.append((cls, v, mode))
+
+    def one2(i):
+        wd = os.path.join(ctx.work, f"c14v-{i}")
+        try:
+            return run_impl(bench.exe, jobs[i][0].text(), "text", wd, env={"CGREEN_PER_TEST_TIMEOUT": jobs[i][1]}, timeout=20)
+        finally:
+            shutil.rmtree(wd, ignore_errors=True)
+    with ThreadPoolExecutor(max_workers=NCPU) as pool:
+        vobs = list(pool.map(one2, range(len(jobs))))
+    mvals = run_model(["timeout"], "\n".join(v.encode().hex() or "-" for _, v, _ in meta) + "\n").split("\n")[:-1]
+    for (cls, v, mode), o, mv in zip(meta, vobs, mvals):
+        ran = any("body" in l for l in o.events)
+        valid = cls == "positive"
+        st = status_of(o)
+        if (mv == "valid") != (ran and st == "0"):
+            ndis += 1
+            if ndis <= 3: ctx.oblige("correspondence C14 (value of the variable)", False, f"CGREEN_PER_TEST_TIMEOUT={v!r} ({mode}): model says {mv}; impl ran the test: {ran}, status {st}")
+        if valid and not (ran and st == "0"):
+            if shown < 8:
+                shown += 1; ctx.violation(f"[C14] CGREEN_PER_TEST_TIMEOUT={v!r} ({cls}), {mode}: a valid limit was refused or the passing test did not pass (ran {ran}, status {st})", f"CGREEN_PER_TEST_TIMEOUT={v!r}\n" + jobs[0][0].text(), found_input=True, facts={"value_class": cls})
+        if not valid and (ran or st in ("0", "exit0")):
+            if shown < 8:
+                shown += 1; ctx.violation(f"[C14] CGREEN_PER_TEST_TIMEOUT={v!r} ({cls}), {mode}: not a positive integer, but the run was not aborted with failure before any test (a test ran: {ran}, status {st})",
+                                          f"CGREEN_PER_TEST_TIMEOUT={v!r}\n" + jobs[0][0].text(), found_input=True, facts={"value_class": cls})
+    ctx.oblige("correspondence C14: model and implementation agree on every timed scenario and every value of the variable", ndis == 0, f"{ndis} disagreements")
+    ctx.coverage["correspondence"] = {"cases": len(scens) + len(jobs), "timed_scenarios": len(scens), "values": len(jobs), "disagreements": ndis}
+    ctx.coverage["samples"] = labels[:3] + [f"CGREEN_PER_TEST_TIMEOUT={v!r}" for _, v, _ in meta[:3]]
+    ctx.coverage["evaluations"] = len(scens) + len(jobs)
+    ctx.coverage["distinct_nontrivial"] = len(scens) + len({v for _, v, _ in meta})
